@@ -13,7 +13,7 @@ from ..battery import call, _Raised
 from ..models import KEYS, Model, State, Flex, sorted_key
 from ..observe import observe
 
-TIERS = {"quick": 450, "thorough": 7000}
+TIERS = {"quick": 900, "thorough": 15000}
 WATCHDOG_S = {"quick": 1200, "thorough": 9000}
 RULE = ("case kinds by index mod 3: 0,1 = filter_hypergraph on the end state of a generated history (H, D, T, M round robin) with "
         "node/hyperedge metadata drawn from a small attribute pool; criteria dictionaries with 1-2 attributes, allowed-value "
